@@ -58,6 +58,10 @@ Proof. vm_compute; reflexivity. Qed.
    unwrap() counts) - see ScanSites.v for why these rows make `C03_scan_no_bad_slice` a statement about the code *)
 Theorem C03_scanner_positions : scanner_positions_gen = scanner_positions_ref.
 Proof. vm_compute; reflexivity. Qed.
+(* the call cycles among the functions of scanner.rs / compiler.rs are the reference ones: none in the scanner, the
+   statement grammar in the compiler - host recursion follows the NESTING of a text, never its length (ScanSites.v) *)
+Theorem C03_host_recursion : host_recursion_gen = host_recursion_ref.
+Proof. vm_compute; reflexivity. Qed.
 (* the only byte arithmetic on positions - `self.start + k` in check_keyword / identifier_type - stays on character
    boundaries: an identifier lexeme is ASCII, and every byte-offset sub-slice of an ASCII token exists *)
 Theorem C03_ident_lexeme_ascii : forall c r l r',
@@ -171,6 +175,7 @@ Print Assumptions C03_precedence_order.
 Print Assumptions C03_token_kinds.
 Print Assumptions C03_keywords.
 Print Assumptions C03_scanner_positions.
+Print Assumptions C03_host_recursion.
 Print Assumptions C03_ident_lexeme_ascii.
 Print Assumptions C03_ascii_token_slices.
 Print Assumptions C03_limits.
